@@ -5,6 +5,11 @@
 // stands for the generic item type (the wrapper is parametric in it).
 pub struct IoError { pub kind: u8 }
 pub enum SeekFrom { Start(u64), End(i64), Current(i64) }
+impl PartialEq for SeekFrom { #[verifier::external_body] fn eq(&self, o: &SeekFrom) -> bool { unimplemented!() } }
+impl PartialEqSpecImpl for SeekFrom {
+    open spec fn obeys_eq_spec() -> bool { true }
+    open spec fn eq_spec(&self, o: &SeekFrom) -> bool { *self == *o }
+}
 pub enum Ev {
     Next(Option<u64>), NextBack(Option<u64>), Len(usize),
     Read(Seq<u8>, Result<usize, IoError>), ReadVectored(Result<usize, IoError>),
